@@ -8,11 +8,12 @@
    PROVED here, for every history and all six solver kinds: the update call's own result, and the
    framework the solver keeps for its caller (results 1-2); a rejected update leaves the solver
    state EQUAL, a redundant one changes nothing but the event buffer (3); a redundant new_argument
-   is a no-op for both encoders: same tables, no SAT event - what defect D6 violated (4).
+   is a no-op for both encoders: same tables, no SAT event - what defect D6 violated (4); no later
+   query of the complete / stable / preferred solver panics - what D7 violated (5).
    NOT YET PROVED (see NOTES-dyn.md): that every later ANSWER equals the from-scratch answer for that
    framework (the functional part shared with C08; the checks compare it on every run against the
-   brute-force oracle), and that no later query aborts. *)
-From Crusta Require Import Model.Dynamic Proofs.DynDefs Proofs.DynProofs.
+   brute-force oracle); (5) for the assumptions-on-attacks variants and the wrapper. *)
+From Crusta Require Import Model.Dynamic Proofs.DynDefs Proofs.DynProofs Proofs.DynSafe.
 
 Section C09.
 Variable L : Type.
@@ -69,6 +70,18 @@ Theorem C09_redundant_argument_replay : forall af e upd l id ps,
   std_replay L leqb (af, e, upd) (DNewArg L l) ps = Done (af, e, must_update upd id) ps.
 Proof. exact (DynProofs.std_replay_redundant L leqb). Qed.
 
+(* (5) "the solver stays usable": after ANY history (redundant and invalid updates included), a
+   supported query of the complete, stable or preferred dynamic solver on an argument of the current
+   framework never panics - no unwrap on None, no index out of bounds, no "no more extensions" - whatever
+   the SAT solver answers.  It returns, or aborts on an Unknown answer (C17), or exhausts the model's
+   fuel.  This is what D7 violated (the error of a rejected update surfaced as a panic in every later
+   query).  Partial: the assumptions-on-attacks variants and the recompute wrapper are not covered. *)
+Theorem C09_query_never_panics_partial : forall k s os oracle thr fuel q cert l id ps,
+  reach k s os -> get_argument L leqb (run_ops fresh os) l = Some id ->
+  (k = KCo /\ q = QDC) \/ (k = KSt /\ (q = QDC \/ q = QDS)) \/ (k = KPr /\ q = QDS) ->
+  match dyn_query oracle L leqb thr fuel s q cert l ps with Panic _ => False | _ => True end.
+Proof. exact (DynSafe.std_query_never_panics L leqb leqb_spec). Qed.
+
 End C09.
 
 (* the hypotheses are satisfiable: a reachable state with a redundant and an invalid update *)
@@ -85,3 +98,4 @@ Print Assumptions C09_rejected_update_leaves_state.
 Print Assumptions C09_redundant_argument_std.
 Print Assumptions C09_redundant_argument_attacks.
 Print Assumptions C09_redundant_argument_replay.
+Print Assumptions C09_query_never_panics_partial.
